@@ -34,7 +34,7 @@ func TestMain(m *testing.M) {
 		os.Exit(helperMain(f, os.Getenv("C19_HELPER_DIR"))) // child of the real-kill cross-check
 	}
 	evid.Main(m, "C19", "fault_enumeration",
-		"rapid-generated fakedb databases (1-3 named graphs incl. names that need path escaping, <= 12 entities in total, ids with gaps and interleaved between graphs, property values of every JSON shape incl. keys the scrubber rewrites) x compression {none,gzip,zstd} x batch size and shard size drawn from {1,2,3,count-1,count,count+1,count/2,1000} x scrub {none, full}. Per case ONE uninterrupted dump is run with hook H2 active; the output directory is captured before EVERY file-system mutation (fsStep site) = what a kill -9 there leaves; torn variants (file empty / half written) are derived for every write-type step; in addition the dump is re-run with a database error at EVERY read transaction and at EVERY delivered record, with a context cancellation at EVERY fsStep, and with a failing file-system operation at every checkpoint/manifest write and every rename. Every distinct resulting directory state S is judged: (I0) every fragment the checkpoint records is on disk with the recorded digest, and a directory holding fragments holds a checkpoint or a manifest; (I1) manifest.json present => the dump is complete and loadable; (I2) Dump(Resume=true) on a copy of S either fails and leaves the recorded fragments byte-identical or succeeds with a dump equal to the uninterrupted one (fast path: byte-identical; otherwise the full C18 oracle: manifest recomputed from the files, Load into an empty database, every entity exactly once) with no checkpoint and no *.tmp left; (I3) resume with a changed codec / zstd level / batch / shard / scrub / salt / driver / target list, with a source whose counts changed in a graph the checkpoint has counted, or with a planted extra file (six places) must fail and leave the recorded fragments intact. The resume of every state is itself captured at every fsStep (and, at selected states in quick / every state in thorough, re-run with database errors, cancellations and file-system errors), and the resulting states are judged in the same way until no new state appears (crash depth unbounded, states memoised by content). Evidence counts crash points. Non-trivial = the crash state's checkpoint shows a current phase with >= 1 committed fragment and >= 1 fragment still to be published; distinct = (kind, site, occurrence, chain of earlier crashes, configuration = codec/scrub/batch/shard/graph sizes).",
+		"rapid-generated fakedb databases (1-3 named graphs incl. names that need path escaping, <= 12 entities in total, ids with gaps and interleaved between graphs, property values of every JSON shape incl. keys the scrubber rewrites) x compression {none,gzip,zstd} x batch size and shard size drawn from {1,2,3,count-1,count,count+1,count/2,1000} x scrub {none, full}. Per case ONE uninterrupted dump is run with hook H2 active; the output directory is captured before EVERY file-system mutation (fsStep site) = what a kill -9 there leaves; torn variants (file empty / half written) are derived for every write-type step; in addition the dump is re-run with a database error at EVERY read transaction and at EVERY delivered record, with a context cancellation at EVERY fsStep, and with a failing file-system operation at every checkpoint/manifest write and every rename. Every distinct resulting directory state S is judged: (I0) every fragment the checkpoint records is on disk with the recorded digest, and a directory holding fragments holds a checkpoint or a manifest; (I1) manifest.json present => the dump is complete and loadable; (I2) Dump(Resume=true) on a copy of S either fails and leaves the recorded fragments byte-identical or succeeds with a dump equal to the uninterrupted one (fast path: byte-identical; otherwise the full C18 oracle: manifest recomputed from the files, Load into an empty database, every entity exactly once) with no checkpoint and no *.tmp left; (I3) resume with a changed codec / zstd level / batch / shard / scrub / salt / driver / target list, with a source whose counts changed in a graph the checkpoint has counted, or with a planted extra file (six places) must fail and leave the recorded fragments intact. The resume of every state is itself captured at every fsStep (and, at selected states in quick / every state in thorough, re-run with database errors, cancellations and file-system errors), and the resulting states are judged in the same way until no new state appears (crash depth unbounded, states memoised by content modulo the run's start timestamp). Thorough tier additionally: faults in the resume at EVERY state, three cut points per torn write, and a cross-check with real process kills (the dump in a child process under strace, SIGKILL on entering each file-system system call; the directories left behind go through the same oracle). Evidence counts crash points. Non-trivial = the crash state's checkpoint shows a current phase with >= 1 committed fragment and >= 1 fragment still to be published; distinct = (kind, site, occurrence, chain of earlier crashes, configuration = codec/scrub/batch/shard/graph sizes).",
 		"the file system applies operations in program order and what has been written survives a process kill (no fsync / power-loss modelling); rename, mkdir and unlink are atomic; a write may be torn at any byte (modelled: empty and half-written)",
 		"fakedb stands in for a DAWGS driver; the source database is quiescent during dump and resume except where the check changes it on purpose",
 		"'the source changed' is judged for graphs whose counts the checkpoint has recorded (completed or current); only count-changing modifications are in scope",
@@ -107,6 +107,9 @@ type explorer struct {
 	completed int
 	refused   int
 	slowPath  int
+
+	variantsRun         int
+	variantsOnResumable int
 
 	pointCheck     string // evidence sub-check the crash points are booked under
 	nontrivial     bool
@@ -643,7 +646,7 @@ func (x *explorer) eval(it item) (*verdict, bool, error) {
 	}
 	v.outcome = outcome
 	// (I3)
-	if err := x.checkRefusals(s, v.k); err != nil {
+	if err := x.checkRefusals(s, v.k, outcome == "completed"); err != nil {
 		return v, true, err
 	}
 	return v, true, nil
@@ -704,7 +707,7 @@ func (x *explorer) variants(s state, k *ckpt) []variant {
 			variant{name: "scrub-off", opts: func(o *retriever.DumpOptions) { o.Scrub, o.Salt = retriever.ScrubNone, "" }},
 			variant{name: "salt", opts: func(o *retriever.DumpOptions) { o.Salt = scrubSalt + "x" }},
 			variant{name: "scrub-config", opts: func(o *retriever.DumpOptions) {
-				o.ScrubConfig = strings.NewReader(`{"redaction_marker":"[GONE]"}`)
+				o.ScrubConfig = strings.NewReader("[scrub]\nredaction_marker = \"[GONE]\"\n")
 			}})
 	} else {
 		vs = append(vs, variant{name: "scrub-on", opts: func(o *retriever.DumpOptions) { o.Scrub, o.Salt = retriever.ScrubFull, scrubSalt }})
@@ -782,7 +785,7 @@ func (x *explorer) variants(s state, k *ckpt) []variant {
 	return vs
 }
 
-func (x *explorer) checkRefusals(s state, k *ckpt) error {
+func (x *explorer) checkRefusals(s state, k *ckpt, resumable bool) error {
 	dir := ""
 	defer func() {
 		if dir != "" {
@@ -811,8 +814,15 @@ func (x *explorer) checkRefusals(s state, k *ckpt) error {
 		}
 		run := x.dump(dir, true, &v, nil, false, nil)
 		after := run.final
+		x.variantsRun++
+		if resumable {
+			x.variantsOnResumable++ // the deviation is the ONLY reason this resume may fail
+		}
 		if run.err == nil {
 			return fmt.Errorf("(I3) resume succeeded although %s (directory before: %s)", describeVariant(v), s.listing())
+		}
+		if os.Getenv("C19_DEBUG") == "2" {
+			fmt.Printf("variant %-40s -> %v\n", v.name, run.err)
 		}
 		if err := noDamage(s, k, after); err != nil {
 			return fmt.Errorf("(I3) resume with %s failed (%v) and %w", describeVariant(v), run.err, err)
@@ -1011,6 +1021,8 @@ func (x *explorer) finish(info *evid.Info, prefix string, baseSteps int) error {
 	evid.R.AddExtraCount(prefix+"resumes_refused", x.refused)
 	evid.R.AddExtraCount(prefix+"completed_resumes_checked_by_full_c18_oracle", x.slowPath)
 	evid.R.AddExtraCount(prefix+"base_fs_steps", baseSteps)
+	evid.R.AddExtraCount(prefix+"i3_deviating_resumes", x.variantsRun)
+	evid.R.AddExtraCount(prefix+"i3_deviating_resumes_on_states_whose_plain_resume_completes", x.variantsOnResumable)
 	classes := map[string]bool{"codec=" + c.Compression: true, fmt.Sprintf("graphs=%d", len(c.Graphs)): true, fmt.Sprintf("scrub=%v", c.Scrub): true}
 	if x.truncated {
 		evid.R.AddExtraCount(prefix+"cases_truncated_at_state_cap", 1)
@@ -1048,7 +1060,7 @@ func explore(c Case) (evid.Info, error) {
 
 func TestC19Enumerate(t *testing.T) {
 	evid.R.Extra("exhaustive_crash_points_per_case", true)
-	n := evid.R.N(26, 25)
+	n := evid.R.N(24, 16)
 	if v, err := strconv.Atoi(os.Getenv("C19_N")); err == nil && v > 0 {
 		n = v // development aid
 	}
